@@ -72,6 +72,15 @@ where
                 )),
             });
         }
+        if start == 0 {
+            // Mirror the parallel path, which loads the fee recipient before the first transaction:
+            // a failing beneficiary read is reported identically whichever path the configuration
+            // selects (after a parallel attempt the account is already cached and this is a hit).
+            self.state
+                .lock()
+                .basic_ref(self.env.beneficiary)
+                .map_err(|e| GrevmError { txid: 0, error: EVMError::Database(e) })?;
+        }
         if start == self.block_size {
             return Ok(());
         }
